@@ -38,6 +38,9 @@ pub enum T {
     Ref(Box<T>),
     /// only produced from factory trees: the harness pre-mapping service
     Pre { f: Aff, t: Box<T> },
+    /// two clones of the service built from `t` (the combinator's own `Clone` where it has one):
+    /// readiness is asked through one, requests are sent through the other
+    Split(Box<T>),
 }
 
 #[derive(Clone, Debug, Serialize, Deserialize, PartialEq)]
@@ -84,7 +87,7 @@ pub fn assign_t(t: &mut T, ids: &mut Ids) {
             ids.node += 1;
             assign_t(t, ids);
         }
-        T::BoxService(t) | T::RcService(t) | T::Rc(t) | T::Boxed(t) | T::RefCell(t) | T::Ref(t) | T::Pre { t, .. } => assign_t(t, ids),
+        T::BoxService(t) | T::RcService(t) | T::Rc(t) | T::Boxed(t) | T::RefCell(t) | T::Ref(t) | T::Split(t) | T::Pre { t, .. } => assign_t(t, ids),
     }
 }
 
@@ -142,6 +145,35 @@ fn apply_closure(w: &W, id: usize, mode: ApplyMode, f: Aff) -> impl Fn(u32, &H) 
     }
 }
 
+/// readiness through one clone, calls through another
+struct SplitClone<S> {
+    ask: S,
+    send: S,
+}
+
+impl<S> Service<u32> for SplitClone<S>
+where
+    S: Service<u32, Response = u32, Error = u32>,
+{
+    type Response = u32;
+    type Error = u32;
+    type Future = S::Future;
+    fn poll_ready(&self, cx: &mut std::task::Context<'_>) -> std::task::Poll<Result<(), u32>> {
+        self.ask.poll_ready(cx)
+    }
+    fn call(&self, req: u32) -> Self::Future {
+        self.send.call(req)
+    }
+}
+
+fn split<S>(s: S) -> H
+where
+    S: Service<u32, Response = u32, Error = u32> + Clone + 'static,
+    S::Future: 'static,
+{
+    erase(SplitClone { ask: s.clone(), send: s })
+}
+
 pub fn build_t(t: &T, w: &W) -> H {
     match t {
         T::Leaf { id } => erase(LeafSvc { id: *id, w: w.clone() }),
@@ -170,6 +202,24 @@ pub fn build_t(t: &T, w: &W) -> H {
         T::Rc(t) => erase(Rc::new(build_t(t, w))),
         T::Boxed(t) => erase(Box::new(build_t(t, w))),
         T::RefCell(t) => erase(RefCell::new(build_t(t, w))),
+        T::Split(t) => match &**t {
+            T::AndThen(a, b) => split(build_t(a, w).and_then(build_t(b, w))),
+            T::Map { id, f, t: inner } => {
+                let (w2, id, f) = (w.clone(), *id, *f);
+                split(build_t(inner, w).map(move |v: u32| {
+                    w2.ev(Ev::MapApply { node: id, input: v });
+                    f.ap(v)
+                }))
+            }
+            T::MapErr { id, f, t: inner } => {
+                let (w2, id, f) = (w.clone(), *id, *f);
+                split(build_t(inner, w).map_err(move |e: u32| {
+                    w2.ev(Ev::MapErrApply { node: id, input: e });
+                    f.ap(e)
+                }))
+            }
+            other => split(build_t(other, w)),
+        },
         T::Ref(t) => {
             let leaked: &'static H = Box::leak(Box::new(build_t(t, w)));
             erase(leaked)
@@ -337,7 +387,7 @@ pub fn ready_deps(t: &T) -> Vec<(usize, Vec<(usize, Aff)>)> {
                 (l, c)
             })
             .collect(),
-        T::Map { t, .. } | T::ApplyFn { t, .. } | T::BoxService(t) | T::RcService(t) | T::Rc(t) | T::Boxed(t) | T::RefCell(t) | T::Ref(t) | T::Pre { t, .. } => ready_deps(t),
+        T::Map { t, .. } | T::ApplyFn { t, .. } | T::BoxService(t) | T::RcService(t) | T::Rc(t) | T::Boxed(t) | T::RefCell(t) | T::Ref(t) | T::Split(t) | T::Pre { t, .. } => ready_deps(t),
     }
 }
 
@@ -391,7 +441,7 @@ pub fn eval(t: &T, req: u32, scripts: &[LeafScript], calls: &mut Vec<usize>, log
                 ApplyMode::PostMap => eval(t, req, scripts, calls, log).map(|v| f.ap(v)),
             }
         }
-        T::BoxService(t) | T::RcService(t) | T::Rc(t) | T::Boxed(t) | T::RefCell(t) | T::Ref(t) => eval(t, req, scripts, calls, log),
+        T::BoxService(t) | T::RcService(t) | T::Rc(t) | T::Boxed(t) | T::RefCell(t) | T::Ref(t) | T::Split(t) => eval(t, req, scripts, calls, log),
         T::Pre { f, t } => eval(t, f.ap(req), scripts, calls, log),
     }
 }
@@ -400,7 +450,7 @@ pub fn depth_t(t: &T) -> usize {
     match t {
         T::Leaf { .. } | T::FnLeaf { .. } => 0,
         T::AndThen(a, b) => 1 + depth_t(a).max(depth_t(b)),
-        T::Map { t, .. } | T::MapErr { t, .. } | T::ApplyFn { t, .. } | T::BoxService(t) | T::RcService(t) | T::Rc(t) | T::Boxed(t) | T::RefCell(t) | T::Ref(t) | T::Pre { t, .. } => 1 + depth_t(t),
+        T::Map { t, .. } | T::MapErr { t, .. } | T::ApplyFn { t, .. } | T::BoxService(t) | T::RcService(t) | T::Rc(t) | T::Boxed(t) | T::RefCell(t) | T::Ref(t) | T::Split(t) | T::Pre { t, .. } => 1 + depth_t(t),
     }
 }
 
@@ -408,7 +458,7 @@ pub fn has_and_then_t(t: &T) -> bool {
     match t {
         T::Leaf { .. } | T::FnLeaf { .. } => false,
         T::AndThen(..) => true,
-        T::Map { t, .. } | T::MapErr { t, .. } | T::ApplyFn { t, .. } | T::BoxService(t) | T::RcService(t) | T::Rc(t) | T::Boxed(t) | T::RefCell(t) | T::Ref(t) | T::Pre { t, .. } => has_and_then_t(t),
+        T::Map { t, .. } | T::MapErr { t, .. } | T::ApplyFn { t, .. } | T::BoxService(t) | T::RcService(t) | T::Rc(t) | T::Boxed(t) | T::RefCell(t) | T::Ref(t) | T::Split(t) | T::Pre { t, .. } => has_and_then_t(t),
     }
 }
 
@@ -416,7 +466,7 @@ pub fn count_leaves_t(t: &T) -> usize {
     match t {
         T::Leaf { .. } | T::FnLeaf { .. } => 1,
         T::AndThen(a, b) => count_leaves_t(a) + count_leaves_t(b),
-        T::Map { t, .. } | T::MapErr { t, .. } | T::ApplyFn { t, .. } | T::BoxService(t) | T::RcService(t) | T::Rc(t) | T::Boxed(t) | T::RefCell(t) | T::Ref(t) | T::Pre { t, .. } => count_leaves_t(t),
+        T::Map { t, .. } | T::MapErr { t, .. } | T::ApplyFn { t, .. } | T::BoxService(t) | T::RcService(t) | T::Rc(t) | T::Boxed(t) | T::RefCell(t) | T::Ref(t) | T::Split(t) | T::Pre { t, .. } => count_leaves_t(t),
     }
 }
 
